@@ -5,3 +5,6 @@ impl JsError {
     #[verifier::external_body]
     pub fn from_str(s: &str) -> JsError { unimplemented!() }
 }
+
+/// sequence of references to the elements of a sequence (what a slice iterator yields)
+pub open spec fn refs<'a, T>(s: Seq<T>) -> Seq<&'a T> { s.map_values(|x: T| &x) }
